@@ -195,7 +195,7 @@ Definition C07_o_kx : opts := mkopts true true false true false true.
 Example C07_hyps_hold :
   transparent [] C07_o_v C07_doc2 /\ nodup_keys C07_doc2 /\
   search_doc C07_lit0 C07_re0 [] C07_tm_a Dot C07_o_v C07_doc2 =
-  Ok [mkhit "a" [RKey (PStr "a")] HVal; mkhit "k[0]" [RKey (PStr "k"); RIdx 0] HVal].
+  Ok [mkhit "a" [RKey (PStr "a")] HValue; mkhit "k[0]" [RKey (PStr "k"); RIdx 0] HValue].
 Proof.
   split; [right; split; reflexivity|]. split; [|vm_compute; reflexivity].
   simpl. repeat split; repeat constructor; simpl; intuition discriminate.
@@ -203,7 +203,7 @@ Qed.
 
 Example C07_keys_example :
   search_doc C07_lit0 C07_re0 [] C07_tm_a Slash C07_o_kv C07_doc2 =
-  Ok [mkhit "/a" [RKey (PStr "a")] HKey; mkhit "/k[0]" [RKey (PStr "k"); RIdx 0] HVal;
+  Ok [mkhit "/a" [RKey (PStr "a")] HKey; mkhit "/k[0]" [RKey (PStr "k"); RIdx 0] HValue;
       mkhit "/s/a" [RKey (PStr "s"); RKey (PStr "a")] HKey].
 Proof. vm_compute. reflexivity. Qed.
 
@@ -226,13 +226,13 @@ Definition C07_o_none : opts := mkopts true false false false false false.
 
 Example C07_alias_all_example :
   search_doc C07_lit0 C07_re0 C07_mt3 C07_tm_a Dot C07_o_all C07_doc3 =
-  Ok [mkhit "a.k" [RKey (PStr "a"); RKey (PStr "k")] HVal; mkhit "b.k" [RKey (PStr "b"); RKey (PStr "k")] HVal;
-      mkhit "c.k" [RKey (PStr "c"); RKey (PStr "k")] HVal].
+  Ok [mkhit "a.k" [RKey (PStr "a"); RKey (PStr "k")] HValue; mkhit "b.k" [RKey (PStr "b"); RKey (PStr "k")] HValue;
+      mkhit "c.k" [RKey (PStr "c"); RKey (PStr "k")] HValue].
 Proof. vm_compute. reflexivity. Qed.
 
 Example C07_alias_none_example :
   search_doc C07_lit0 C07_re0 C07_mt3 C07_tm_a Dot C07_o_none C07_doc3 =
-  Ok [mkhit "a.k" [RKey (PStr "a"); RKey (PStr "k")] HVal].
+  Ok [mkhit "a.k" [RKey (PStr "a"); RKey (PStr "k")] HValue].
 Proof. vm_compute. reflexivity. Qed.
 
 (* get_search_term through the parser model *)
